@@ -216,6 +216,11 @@ def penalise_boundary(f0, width, nd, ramp_front, ramp_back):
             idx[ax] = slice(i, i + 1)
             return tuple(idx)
 
+        # zone value = inner-edge value x ramp.  Defined for disjoint zones only (n >= 2*width): when the zones overlap
+        # the library's result depends on the order of its four sub-steps (the back zone then copies a layer the front
+        # fill has already overwritten) and no statement of the property pins that down
+        if n < 2 * width:
+            raise ValueError("boundary-zone reference is defined for disjoint zones (n >= 2*width) only")
         front_edge = _copy(out[cell(width - 1)])
         back_edge = _copy(out[cell(n - width)])
         for i in range(width):
